@@ -64,7 +64,13 @@ def converged(sim, fsim, xtol, ftol):
     return dx <= xtol and df <= ftol
 
 
-def nelder_mead(func, x0, xtol=1e-4, ftol=1e-4, maxiter=None, maxfun=None, zdelt=ZDELT):
+def adaptive_coefficients(n):
+    """Gao & Han 2012 (scipy's ``adaptive=True``): rho=1, chi=1+2/n, psi=0.75-1/(2n), sigma=1-1/n"""
+    n = float(n)
+    return 1.0, 1.0 + 2.0 / n, 0.75 - 1.0 / (2.0 * n), 1.0 - 1.0 / n
+
+
+def nelder_mead(func, x0, xtol=1e-4, ftol=1e-4, maxiter=None, maxfun=None, zdelt=ZDELT, coefficients=None):
     """generator of records, one per iteration (iteration 0 = f(x0), iteration 1
     = the ordered initial simplex, iteration k >= 2 = one Nelder-Mead move).
 
@@ -74,6 +80,7 @@ def nelder_mead(func, x0, xtol=1e-4, ftol=1e-4, maxiter=None, maxfun=None, zdelt
     0.00025 in the reference) is a parameter only so that a deviation can be
     attributed to it."""
     n = len(x0)
+    RHO, CHI, PSI, SIGMA = coefficients or (1.0, 2.0, 0.5, 0.5)
     if maxiter is None:
         maxiter = n * 200
     if maxfun is None:
